@@ -782,6 +782,10 @@ class Engine:
             if not branches:
                 raise OutOfSubset("comprehension element has no normal exit")
             kinds = {getattr(v, "kind", None) for _, _, v in branches}
+            if all(isinstance(v, SConc) for _, _, v in branches):
+                s.abstracted.add("comprehension producing opaque constants/strings (result is an opaque sequence)")
+                yield SObj(fresh("opaque_list", Obj)), p1
+                continue
             if len(kinds) != 1 or None in kinds:
                 raise OutOfSubset("comprehension element of non-scalar kind")
             (ek,) = kinds
